@@ -175,7 +175,8 @@ class Run(object):
             elif kind == "cancel2" and s in (st.RUNNING, st.PAUSING, st.PAUSED, st.RESUMING):
                 self.step({"op": "req", "status": st.CANCELED}, _ctl=True)
             elif kind == "resume" and s in (st.PAUSED, st.PAUSING) and self.pause_requested and not d.dormant:
-                self.step({"op": "req", "status": st.RESUMING}, _ctl=True)
+                # (both documented ways of resuming: `resuming` and `running`)
+                self.step({"op": "req", "status": st.RESUMING if pos % 2 == 0 else st.RUNNING}, _ctl=True)
             elif kind == "restore":
                 self.step({"op": "restore"}, _ctl=True)
             elif kind == "rerun" and s == st.FAILED:
@@ -234,7 +235,7 @@ class Run(object):
             if rec["offers"]:
                 continue
             if d.status() in (st.PAUSED,) and self.pause_requested:
-                r = self.step({"op": "req", "status": st.RESUMING})
+                r = self.step({"op": "req", "status": st.RESUMING if self.nsteps % 2 == 0 else st.RUNNING})
                 self.pause_requested = False
                 if r["rejected"]:
                     break
